@@ -229,6 +229,23 @@ def run(tier, seed):
                 if il != w:
                     chk.violation(f"options JSON ({what}, size {n}) does not read back like the original", f"size-dependent {'reg' if is_reg else 'auth'} {what}",
                                   {"entry": "parse_options_json", "size": n, "what": what, "impl": il[:200], "expected": w[:200]})
+    # ids, challenges and user ids whose base64url text happens to be lower-case hex / digits / a word, or whose bytes are themselves base64 / hex / JSON text
+    for is_reg in (True, False):
+        a = optsim.gen_reg_args(rng) if is_reg else optsim.gen_auth_args(rng)
+        for j, lb in enumerate(fw.lookalike_bytes()):
+            a2 = dict(a)
+            a2["challenge"] = lb if j % 2 else b"c" * 16
+            a2["exclude" if is_reg else "allow"] = [{"id": lb, "transports": None}, {"id": lb[::-1] or b"x", "transports": ["usb"]}]
+            if is_reg:
+                a2["user_id"] = lb[:64] or b"u"
+            o = webauthn.generate_registration_options(**optsim.reg_kwargs(a2)) if is_reg else webauthn.generate_authentication_options(**optsim.auth_kwargs(a2))
+            text = options_to_json(o)
+            want = "OK " + (optsim.pr_creation(normalise(o)) if is_reg else optsim.pr_request(normalise(o)))
+            for val in (text, json.loads(text)):
+                il = parse_both(is_reg, val)
+                if il != want:
+                    chk.violation("options with an id / challenge whose encoding looks like another encoding do not read back unchanged", f"roundtrip-lookalike {'reg' if is_reg else 'auth'}",
+                                  {"entry": "parse_options_json", "bytes_hex": lb.hex(), "json": text[:400], "parsed": il[:400], "expected": want[:400]})
     # JSON text may repeat a member name (json.loads keeps the last): the text is read exactly like the value json.loads gives for it
     for is_reg in (True, False):
         a = optsim.gen_reg_args(rng) if is_reg else optsim.gen_auth_args(rng)
